@@ -165,3 +165,50 @@ Definition zmin_list (l : list Z) : Z := match l with [] => 0 | x :: r => fold_l
 Definition zmax_list (l : list Z) : Z := match l with [] => 0 | x :: r => fold_left Z.max r x end.
 Definition lag_of (sym_lags : list Z) (min_lags : Z) : Z := Z.max (Z.abs (zmin_list sym_lags)) min_lags.
 Definition lead_of (sym_leads : list Z) (min_leads : Z) : Z := Z.max (Z.abs (zmax_list sym_leads)) min_leads.
+
+(* ---- the index text of a term at lag / lead k, before and after str.replace('t', 'index') ---- *)
+(* the text fsic.parser writes between the brackets of a term at lag / lead k *)
+Definition idx_text (k : Z) : str :=
+  match k with
+  | Z0 => lit "t"
+  | Zpos q => lit "t+" ++ dec (Pos.to_nat q)
+  | Zneg q => lit "t-" ++ dec (Pos.to_nat q)
+  end.
+Definition f_idx_text (k : Z) : str :=
+  match k with
+  | Z0 => lit "index"
+  | Zpos q => lit "index+" ++ dec (Pos.to_nat q)
+  | Zneg q => lit "index-" ++ dec (Pos.to_nat q)
+  end.
+
+
+(* ---- free-form continuation lines as the compiler reads them: a line whose last non-blank character is `&` continues on
+   the next line, from just after that line's first non-blank character when it is `&` ---- *)
+Open Scope nat_scope.
+Definition is_blank (c : ascii) : bool := code_of c =? 32.
+Fixpoint plain_lines (l cur : str) : list str :=          (* split on line feeds, dropping them *)
+  match l with
+  | [] => [rev cur]
+  | c :: r => if code_of c =? 10 then rev cur :: plain_lines r [] else plain_lines r (c :: cur)
+  end.
+Definition rstrip (l : str) : str := rev (drop_while is_blank (rev l)).
+(* (the line without its continuation mark, whether it is continued) *)
+Definition split_cont (l : str) : str * bool :=
+  match rev (rstrip l) with
+  | c :: r => if ascii_eqb c "&" then (rev r, true) else (l, false)
+  | [] => (l, false)
+  end.
+Definition cont_start (l : str) : str :=
+  match drop_while is_blank l with
+  | c :: r => if ascii_eqb c "&" then r else l
+  | [] => l
+  end.
+(* the statement a sequence of physical lines denotes *)
+Fixpoint logical (continued : bool) (lines : list str) : str :=
+  match lines with
+  | [] => []
+  | l :: r => let '(body, c) := split_cont (if continued then cont_start l else l) in body ++ logical c r
+  end.
+(* the lines of textwrap.wrap put side by side, four blanks between neighbours *)
+Fixpoint glue (ws : list str) : str :=
+  match ws with [] => [] | [w] => w | w :: r => w ++ lit "    " ++ glue r end.
